@@ -405,8 +405,9 @@ theorem mem_sfieldsFrom : ∀ (fs : List AField) (i : Nat) (sf : Spec.Msg.SField
       obtain ⟨g, hg, j, hj⟩ := ih (i + 1) sf h
       exact ⟨g, List.mem_cons_of_mem _ hg, j, hj⟩
 
-theorem prefix_ok (x : String) : hasMsgPrefix ("Message" ++ x) = true := by
-  simp [hasMsgPrefix, String.toList_append]
+theorem prefix_ok (x : String) (hx : LayoutLink.firstUpper x) : hasMsgPrefix ("Message" ++ x) = true := by
+  obtain ⟨c, r, hs, hc⟩ := hx
+  simp [hasMsgPrefix, String.toList_append, hs, suffixUpper, hc]
 
 theorem suffix_ok (x : String) : msgSuffix ("Message" ++ x) = x := by
   simp [msgSuffix, String.toList_append]
@@ -444,7 +445,7 @@ theorem generated_struct_is_the_definition (m : AMsg) (ok : AMsgOk m) :
     have hname : Spec.Msg.snakeUpper (defToGo m.name) = m.name := by
       rw [← LayoutLink.msg_name_conv _ (defToGo_firstUpper m.name c r hs hc)]
       exact C18.msg_name_roundtrip m.name ok.name
-    simp only [prefix_ok, Bool.not_true, Bool.false_eq_true, if_false, suffix_ok, hname,
+    simp only [prefix_ok _ (defToGo_firstUpper m.name c r hs hc), Bool.not_true, Bool.false_eq_true, if_false, suffix_ok, hname,
       fieldsOfGo_generated m.fields 0 ok.fields, Option.bind_eq_bind, Option.bind_some]
     split
     · rfl
